@@ -239,6 +239,17 @@ class STimedelta:
     def total_seconds(self):
         return Sym(z3.ToReal(_i(self.total_us)) / 10**6)
 
+    def __radd__(self, o):
+        """datetime + timedelta with the timedelta symbolic"""
+        if isinstance(o, _dt.datetime):
+            return from_concrete(o) + self
+        return NotImplemented
+
+    def __rsub__(self, o):
+        if isinstance(o, _dt.datetime):
+            return from_concrete(o) - self
+        return NotImplemented
+
     def _cmp(self, o, op):
         return mk(op(_i(self.total_us), _i(td_us(o))))
 
